@@ -64,7 +64,7 @@ func c01(tier string) int {
 	if tier == "thorough" {
 		conf = []seq.Plan{{Family: "real-kv", Params: "keys=3", From: 4, To: 4}, {Family: "real-kv-len", From: 3, To: 3}}
 	}
-	return seqCheckConf("C01", tier, 90*time.Second, 10*time.Minute, plans, conf,
+	return seqCheckConf("C01", tier, 120*time.Second, 20*time.Minute, plans, conf,
 		"all autocommit histories up to the stated depth over Set/SetReader/Create/Delete on 3 keys (one multi-byte UTF-8) plus Set(\"\"); Get, GetReader, GetKeys and Get(never-written) compared with a map model after every step; all content lengths of {0,1,2047,2048,2049,4096,32767,32768,32769,65537} and Create splits on the last write of every history of depth<=3 inline and of depth<=1 (quick) / 3 (thorough) through external.Open against a running server; the key dimension: every history that first writes one of 41 unusual valid-UTF-8 keys (separators, dots, blanks, control characters, NUL, format verbs, the store's record prefixes, multi-byte runes, case/prefix neighbours, lengths 255..70000) and continues over it and a neighbour with writes, deletions and reopenings to depth 3 (quick) / 5 (thorough), all table keys read after every step; writes in progress (family heldwriter): Create and a first Write at one position of a history with transactions, the last Write and Close at the same or a later one, a collection pass optionally right after the first or before the second — the write takes effect at Close, whole, whatever happened in between; states = distinct model states",
 		seqAssumptions)
 }
@@ -112,7 +112,7 @@ func c03(tier string) int {
 	if tier == "thorough" {
 		conf = []seq.Plan{{Family: "real-iso", Params: "keys=2,slots=2,levels=RC.RR,gc=0,obs=auto,maxw=3", From: 4, To: 4}}
 	}
-	return seqCheckConf("C03", tier, 90*time.Second, 15*time.Minute, plans, conf,
+	return seqCheckConf("C03", tier, 120*time.Second, 25*time.Minute, plans, conf,
 		"all sequential interleavings up to the stated depth of transactions (levels as stated, up to 3 writes each, overlapping write sets) and autocommit writes; the error class of every Commit/Rollback and autocommit Get of all keys + GetKeys after every step compared with the model: success publishes exactly the last value per written key, failure/rollback changes nothing, ErrTxSerialization iff snapshot level and a written key was committed after begin",
 		seqAssumptions)
 }
